@@ -943,3 +943,78 @@ pub fn run(out: &mut Out, rng: &mut Rng, thorough: bool) {
 	unrepresentable(out, rng, thorough);
 	writer_faults(out, rng, thorough);
 }
+
+fn line_col_pairs(msg: &str) -> Vec<(u64, u64)> {
+	let mut v = vec![];
+	let mut rest = msg;
+	while let Some(i) = rest.find("line ") {
+		rest = &rest[i + 5..];
+		let l: String = rest.chars().take_while(|c| c.is_ascii_digit()).collect();
+		let after = &rest[l.len()..];
+		if let Some(stripped) = after.strip_prefix(" column ") {
+			let c: String = stripped.chars().take_while(|c| c.is_ascii_digit()).collect();
+			if let (Ok(l), Ok(c)) = (l.parse(), c.parse()) {
+				v.push((l, c));
+			}
+		}
+	}
+	v
+}
+
+/// For a YAML syntax error in the FIRST document of a stream, the positions
+/// (every `line L column C` of the parser's message: the problem's and the
+/// context's) reported through a reader are those reported for a slice — both
+/// come from libyaml's marks for the same text.
+pub fn yaml_error_positions(out: &mut Out, rng: &mut Rng, thorough: bool) {
+	let mut inputs: Vec<Vec<u8>> = [
+		&b"a: [1, 2\nb: 3\n"[..],
+		b"a: {x: 1\nb: 3\n",
+		b"a: \"unterminated\n",
+		b"a: *\n",
+		b"k: [a, b\n",
+		b"a:\n  - x\n  y: 1\n",
+		b"a: !<tag x\n",
+		b"\"a\\q\": 1\n",
+		b"- [1, {a: 2\n- x\n",
+		b"key: 'abc\nnext: 1\n",
+		b"a: 1\n b: 2\n",
+		b"? [a\n: 1\n",
+	]
+	.iter()
+	.map(|b| b.to_vec())
+	.collect();
+	for _ in 0..(if thorough { 600 } else { 80 }) {
+		let v = crate::gen::gen_doc(rng, &crate::gen::GenOpts::cdm().for_formats(&[Fmt::Yaml]));
+		if let Some(text) = crate::gen::spell(Fmt::Yaml, &v, &crate::gen::Spelling::random(rng)) {
+			if text.len() > 3 {
+				let cut = rng.range(1, text.len() as u64 - 1) as usize;
+				inputs.push(text[..cut].to_vec());
+				inputs.push(crate::gen::mutate(&text, rng));
+			}
+		}
+	}
+	for input in &inputs {
+		if std::str::from_utf8(input).is_err() {
+			continue;
+		}
+		let slice = translate(input, &Supply::Slice, Some(Fmt::Yaml), Fmt::Json);
+		for supply in [Supply::Reader(vec![]), Supply::Reader(vec![1]), Supply::Reader(vec![5, 3])] {
+			let reader = translate(input, &supply, Some(Fmt::Yaml), Fmt::Json);
+			let (Err(ms), Err(mr)) = (&slice.result, &reader.result) else { continue };
+			let (ps, pr) = (line_col_pairs(ms), line_col_pairs(mr));
+			// Only errors libyaml itself reports in the first document carry
+			// comparable marks on both paths.
+			if ps.is_empty() || ps.len() != pr.len() || !slice.output.is_empty() || !reader.output.is_empty() {
+				continue;
+			}
+			out.eval("yaml_error_positions", &format!("{}{}", hex(input), supply.describe()), true);
+			if ps != pr {
+				out.fail(
+					"yaml_error_positions",
+					"",
+					format!("YAML input {:?}: through {} the error is {:?} but for a slice it is {:?} — the positions differ", String::from_utf8_lossy(input), supply.describe(), mr, ms),
+				);
+			}
+		}
+	}
+}
